@@ -107,7 +107,10 @@ class Pipe(chan.ChannelScenario):
             n = len(data)
             if n > track["max_write"]:
                 track["max_write"] = n
+            dead = ch.socket is None
             r = orig_ws(data)
+            if dead and n:
+                track["accepted_after_teardown"] = track.get("accepted_after_teardown", 0) + n
             # the producer waits until the backlog is at or below the mark, then
             # appends: right after a write at most mark + this write is pending
             t = ch.total_outbufs_len
